@@ -503,6 +503,9 @@ def check_C11(ctx):
         rep.cases += 1
         rep.distinct.add(sx.to_sx(e))
         rep.corr(b, i, 'STEPCOUNT')
+        if 'OverflowError' in b.impl[j] or 'OverflowError' in b.impl[i]:
+            rep.stats['range_excluded'] += 1
+            continue
         info = dict(kv.split('=', 1) for kv in b.impl[j].split() if '=' in kv)
         if not info:
             rep.oracle_fail('step counting failed: %s' % b.impl[j], b, [j])
